@@ -65,3 +65,53 @@ def run(name, defs, N, LOGM, timeout=1500, jobs=None):
     harnesses = ["%s::step" % d["name"] for (d, _, _, _) in defs]
     res, outs, cmd, wall = K.run_cargo_kani(root, harnesses, timeout=timeout, jobs=jobs)
     return root, res, outs, cmd, wall
+
+
+def unwind_bound(d, N, m):
+    """dispatch-loop rounds allowed per call: every round reads at most N characters plus the end of input,
+    and re-reads after a rewind belong to the next round"""
+    return max(m * (N + 1) + 2, N + 3)
+
+
+def settings(d, tier):
+    N = d.get("Nt", d["N"] + 1) if tier == "thorough" else d["N"]
+    m = d["m"]
+    return N, m
+
+
+def run_defs(defs, tier, timeout=1500, jobs=None, extra_flags=()):
+    """run the step harness of every definition; one crate per (N, m) group, groups in parallel.
+    -> list of dicts(def, N, m, unwind, result, output)"""
+    import concurrent.futures as cf
+    groups = {}
+    for d in defs:
+        N, m = settings(d, tier)
+        groups.setdefault((N, m), []).append(d)
+    prepare = os.path.join(C.scratch(), "layerc_util")
+    if not os.path.exists(prepare):
+        prepare_util(prepare)
+    C.snapshot()
+    total_jobs = jobs or C.NCPU
+    out = []
+
+    def one_group(key):
+        N, m = key
+        ds = groups[key]
+        root = build_crate("g%d_%d" % (N, m), [(d, m, unwind_bound(d, N, m), not d.get("width")) for d in ds], N, m)
+        harnesses = ["%s::step" % d["name"] for d in ds]
+        share = max(1, total_jobs * len(ds) // max(1, len(defs)))
+        res, outs, cmd, wall = K.run_cargo_kani(root, harnesses, timeout=timeout, jobs=share, extra_flags=extra_flags)
+        rows = []
+        for d in ds:
+            h = "%s::step" % d["name"]
+            r = res.get(h)
+            if r is None:
+                r = {"harness": h, "status": "undecided", "failed_checks": [], "time_s": None, "checks": None, "covers": None,
+                     "unwinding_failure": False, "raw_tail": outs.get("codegen", "")[-3000:], "wall_s": None}
+            rows.append({"def": d, "N": N, "m": m, "unwind": unwind_bound(d, N, m), "result": r, "output": outs.get(h, ""), "cmd": cmd, "crate": root})
+        return rows
+
+    with cf.ThreadPoolExecutor(max_workers=len(groups) or 1) as ex:
+        for rows in ex.map(one_group, list(groups)):
+            out.extend(rows)
+    return out
